@@ -19,27 +19,15 @@ var suitesByProp = map[string][]func(*runner, *rng){
 	"C11": {suiteUnfragment, suiteUnfragmentHuge},
 	"C13": {suiteOptimize, suiteOptimizeAlias, suiteTtmlOptimize, suiteStylingParsed},
 	"C16": {suiteDur, suiteFracFloat},
-<<<<<<< HEAD
-	"C15": {suiteLin},
+	"C15": {suiteLin, suiteLinHuge},
 	"C01": {suiteSrt, suiteLineBoundSrt},
 	"C02": {suiteVtt, suiteVttNeeds, suiteVttKeyed, suiteLineBoundVtt},
 	"C04": {suiteSsa, suiteSsaModel, suiteLineBoundSsa},
-	"C17": {suiteSchedules, suiteStlIO},
-=======
-	"C15": {suiteLin, suiteLinHuge},
-	"C01": {suiteSrt},
-	"C02": {suiteVtt, suiteVttNeeds},
-	"C04": {suiteSsa, suiteSsaModel},
 	"C17": {suiteSchedules, suiteStlIO, suiteTeletextFullReader, suiteTeletextSchedules},
->>>>>>> upstream
 	"C19": {suiteDeterminism},
 	"C08": {suiteTotality, suiteTeletextHostile, suiteStlNilItems},
 	"C06": {suiteTeletext, suiteTeletextModel, suiteTeletextHamming},
-<<<<<<< HEAD
-	"C07": {suiteConvert, suiteConvertModel, suiteConvertOps, suiteConvertCLI, suiteConvertRich, suiteConvertPlain, suiteConvertCLIModel, suiteConvertPlainStyled, suiteConvertStlStyledSrt, suiteConvTtmlSsa, suiteConvTtmlVtt, suiteConvertPlainTtx, suiteConvertStyledTtx},
-=======
-	"C07": {suiteConvert, suiteConvertModel, suiteConvertOps, suiteConvertCLI, suiteConvertRich, suiteConvertPlain, suiteConvertCLIModel, suiteConvertPlainStyled, suiteConvertPlainTtx, suiteConvertStyledTtx, suiteConvertStlStyled, suiteConvertIllegalToTtml},
->>>>>>> upstream
+	"C07": {suiteConvert, suiteConvertModel, suiteConvertOps, suiteConvertCLI, suiteConvertRich, suiteConvertPlain, suiteConvertCLIModel, suiteConvertPlainStyled, suiteConvertStlStyledSrt, suiteConvTtmlSsa, suiteConvTtmlVtt, suiteConvertPlainTtx, suiteConvertStyledTtx, suiteConvertStlStyled, suiteConvertIllegalToTtml},
 	"C20": {suiteConcurrency},
 	"C18": {suiteFaults, suiteStlIO, suiteTeletextFullReader, suiteTeletextFaults},
 	"C03": {suiteTtml},
